@@ -131,7 +131,8 @@ PLAN = {
         "rule": "2-4 simulated threads, each 1-4 rounds of injector (thread-specific fake on a shared real function, 1-3 calls) or preventer (1-3 calls), released by drop or by panic; plus the handover family (a holder with a plain and a counted fake lets go by user panic, over-call, rejected arguments, refused install, unsatisfied expectation or drop while 1-2 threads wait: the next holder must find everything restored); every Mutex lock attempt/unlock, every explicit yield between harness steps, spawn and join is a scheduling point decided by a seeded scheduler (uniform random, sticky with rare preemptions, PCT-style priorities); distinct = distinct (thread, point kind) sequences (interleavings) + scenario classes",
         "assumptions": [A_T],
         "parts": [t_part("T-exclusion", "excl", "C04", 12000, 2000000),
-                  t_part("T-handover-after-panic", "handover", "C04", 6000, 1000000)],
+                  t_part("T-handover-after-panic", "handover", "C04", 6000, 1000000),
+                  t_part("T-shared-site-across-threads", "sharedsite", "C04", 4000, 400000)],
     },
     "C05": {
         "level": "fault_enumeration",
